@@ -22,6 +22,9 @@ type c18rOp struct {
 	sess int
 	uri  string
 	name string
+	// via: an update announced from inside a tool handler of session via-1, under that handler's context
+	// (0: announced by the server outside any request)
+	via int
 }
 
 func c18rOps() []c18rOp {
@@ -36,6 +39,10 @@ func c18rOps() []c18rOp {
 	}
 	ops = append(ops, c18rOp{kind: "update", uri: "file:///r1", name: "server: resource r1 updated"})
 	ops = append(ops, c18rOp{kind: "update", uri: "file:///r2", name: "server: resource r2 updated"})
+	// the same announcement made from inside a request handler, with the handler's context (a tool that
+	// edits the resource): whose request it was has no bearing on who is told
+	ops = append(ops, c18rOp{kind: "update", uri: "file:///r1", via: 1, name: "a tool called by legacy-A updates r1 (handler context)"})
+	ops = append(ops, c18rOp{kind: "update", uri: "file:///r1", via: 3, name: "a tool called by modern-C updates r1 (handler context)"})
 	// a subscription is to a URI, not to an entry of the resource list: taking the resource off the list
 	// (and putting it back) neither ends nor changes anybody's subscription
 	ops = append(ops, c18rOp{kind: "unpublish", uri: "file:///r1", name: "server: RemoveResources(r1)"})
@@ -67,6 +74,11 @@ func c18rInBubble(ops []c18rOp, hist []int, transport string) verifx.SearchResul
 			return &ReadResourceResult{Contents: []*ResourceContents{{URI: u, Text: "x"}}}, nil
 		})
 	}
+	AddTool(s, &Tool{Name: "touch"}, func(hctx context.Context, r *CallToolRequest, in struct {
+		URI string `json:"uri"`
+	}) (*CallToolResult, any, error) {
+		return &CallToolResult{}, nil, s.ResourceUpdated(hctx, &ResourceUpdatedNotificationParams{URI: in.URI})
+	})
 	versions := []string{"2025-06-18", "2025-06-18", "2026-07-28"}
 	got := make([][]string, 3) // URIs of the resources/updated notifications each client received
 	var sessions []*ClientSession
@@ -112,6 +124,9 @@ func c18rInBubble(ops []c18rOp, hist []int, transport string) verifx.SearchResul
 		if op.kind != "update" && op.kind != "publish" && op.kind != "unpublish" && closed[op.sess] {
 			return verifx.SearchResult{Skip: true}
 		}
+		if op.via > 0 && closed[op.via-1] {
+			return verifx.SearchResult{Skip: true}
+		}
 		switch op.kind {
 		case "subscribe":
 			if err := sessions[op.sess].Subscribe(ctx, &SubscribeParams{URI: op.uri}); err != nil {
@@ -152,7 +167,11 @@ func c18rInBubble(ops []c18rOp, hist []int, transport string) verifx.SearchResul
 			for i := range got {
 				before[i] = len(got[i])
 			}
-			if err := s.ResourceUpdated(ctx, &ResourceUpdatedNotificationParams{URI: op.uri}); err != nil {
+			if op.via > 0 {
+				if res, err := sessions[op.via-1].CallTool(ctx, &CallToolParams{Name: "touch", Arguments: map[string]any{"uri": op.uri}}); err != nil || res.IsError {
+					return bad("update-failed", "%s: the tool call failed: %v %+v", where, err, res)
+				}
+			} else if err := s.ResourceUpdated(ctx, &ResourceUpdatedNotificationParams{URI: op.uri}); err != nil {
 				return bad("update-failed", "%s: %v", where, err)
 			}
 			synctest.Wait()
